@@ -70,6 +70,9 @@ def small_case(draw):
     pool_n1 = draw(st.lists(numbers(), min_size=1, max_size=5))
     pool_n2 = draw(st.lists(numbers(), min_size=1, max_size=3))
     pool_s = draw(st.lists(st.one_of(st.sampled_from(STR_POOL), gen.text_hard(4, edge_ws=True)), min_size=1, max_size=5))
+    if draw(st.integers(0, 5)) == 0:
+        # keys that only differ far behind their common beginning
+        pool_s = pool_s + ['p' * 300 + 'b', 'p' * 300 + 'a', 'p' * 255 + 'z', 'p' * 255 + 'y']
     n = draw(st.sampled_from([0, 1, 2, 3, 5, 8, 13, 40, 150]))
     if n > 13:
         rnd = draw(st.randoms(use_true_random=False))
